@@ -20,9 +20,10 @@ TECHNIQUE = 'explicit-state exploration of all single-threaded interleavings of 
 LEVEL_TEXT = ('All sequences of read operations (index, slice, window, creating and stepping up to 2 channel-level and 2 '
               'file-level chunk generators) up to the stated depth are executed on the real TdmsFile.open object, for files '
               'chosen so that hidden state collides; a BFS with canonical keys (cursor, generator progress, cache bounds, offset '
-              'index) extends the depth. Each result is compared with the same operation on a fresh file.')
-LEVEL_NOTE = ('Trusted: the fresh-file result of each single operation (tied to the reference by C01-C04). Bounds: 6 files, '
-              '17-label alphabet, depth 3 (quick) / 4-5 (thorough) full tree, BFS depth 6-8.')
+              'index) extends the depth. Each result is compared with the same operation on a fresh file; chunks delivered earlier '
+              '(and the arrays they handed out) are re-examined after the history.')
+LEVEL_NOTE = ('Trusted: the fresh-file result of each single operation (tied to the reference by C01-C04). Bounds: 12 files (+ long files), '
+              '22-label alphabet, depth 3 (quick) / 4-5 (thorough) full tree, BFS depth 6-8.')
 ASSUMPTIONS = ['single-threaded use (documented: lazily opened files are not thread safe)',
                'BFS key = public observables refined by private cursor/cache attributes when present; merging is paired '
                'with the no-merging tree']
